@@ -183,6 +183,13 @@ class StatementInserter(ast.NodeTransformer, EmitterMixin):
                         orelse=orelse,
                     )
                 ]
+            elif self.handler_predicate_by_event[before_loop_evt](node):
+                # no guard test to carry the event: emit it as the first statement of the body
+                ret = [
+                    fast.Expr(
+                        self.emit(before_loop_evt, node, ret=fast.NameConstant(True))
+                    )
+                ] + ret
             return globals_and_nonlocals + ret
 
     def _handle_function_body(
@@ -276,6 +283,18 @@ class StatementInserter(ast.NodeTransformer, EmitterMixin):
                         orelse=orelse,
                     ),
                 ]
+            elif self.handler_predicate_by_event[TraceEvent.before_function_body](
+                fundef_copy
+            ):
+                ret = [
+                    fast.Expr(
+                        self.emit(
+                            TraceEvent.before_function_body,
+                            node,
+                            ret=fast.NameConstant(True),
+                        )
+                    )
+                ] + ret
             name_error_exc = f"{PYCCOLO_BUILTIN_PREFIX}_name_error"
             ret = [
                 fast.Try(
